@@ -361,7 +361,7 @@ def make_history(rng, services, max_sessions, per_session):
                 reqs.append(f"{sid:02x}{sf | 0x80:02x}" + rb(rng.randint(0, 2)))
             if sid == 0x27 and sfs:
                 for sf in [x for x in sfs if x % 2 == 1][:2]:
-                    reqs += [f"27{sf:02x}", f"key:{sf + 1:02x}", f"27{sf:02x}", f"27{sf + 1:02x}00", f"27{sf + 1:02x}" + rb(3)]
+                    reqs += [f"27{sf:02x}", f"unlock:{sf + 1:02x}", f"27{sf:02x}", f"27{sf + 1:02x}" + rb(4), f"27{sf + 1:02x}" + rb(3)]
             if sid == 0x31:
                 rid = rb(2)
                 reqs += [f"3101{rid}", f"3102{rid}", f"3103{rid}", "3101" + rb(2) + rb(2), "3101" + rb(2)]
@@ -380,6 +380,9 @@ def make_history(rng, services, max_sessions, per_session):
                 reqs += ["1104"]
         rng.shuffle(reqs)
         reqs = reqs[:per_session]
+        # a SendKey with a 1-2 byte key could equal a fresh seed by chance: make such keys 3 bytes
+        reqs = [r + rb(3 - (len(r) // 2 - 2)) if (not r.startswith("unlock:") and r.startswith("27") and 6 <= len(r) <= 8
+                                                 and int(r[2:4], 16) % 2 == 0) else r for r in reqs]
         if 0x11 in svcs:
             reqs += ["1101", "3e00", "22f186"]  # reset: back to the default session
         h += reqs
@@ -620,7 +623,7 @@ def check_c2(ctx, impl, c1_cases, c1_results):
                 continue
             i = next(k for k, (x, y) in enumerate(zip(a["answers"], b["answers"])) if x != y)
             req = cfg["history"][i]
-            sid = req[:2] if not req.startswith("key:") else "27"
+            sid = req[:2] if not req.startswith("unlock:") else "27"
             ctx.disagree("c2:answer-differs:sid=" + sid, f"same seed, arguments and history: answer to request {i} ({req}) differs between processes",
                          {"kind": "c2", "env": envd, "configs": [{**cfg, "history": cfg["history"][: i + 1]}]},
                          impl=b["answers"][i], model=a["answers"][i], spec_violated=True, site="RandomUDSServer.respond")
